@@ -241,11 +241,12 @@ def names_list(x):
     return [irsem.unescape_id(a) for a in x]
 
 
-def infer(t, env):
+def infer(t, env, aenv=None):
+    """env: eval scope; aenv: the aggregation / scan scope (None when the node is not inside one)"""
     if not isinstance(t, list) or not t or not isinstance(t[0], str):
         raise NotInferred(f'node {t!r}')
     k, a = t[0], t[1:]
-    I = lambda x, e=env: infer(x, e)  # noqa: E731
+    I = lambda x, e=env: infer(x, e, aenv)  # noqa: E731
     if k == 'I32':
         return 'Int32'
     if k == 'I64':
@@ -386,6 +387,24 @@ def infer(t, env):
         if bt != z:
             raise IllTyped(f'StreamFold: zero {show(z)} but body {show(bt)}')
         return z
+    if k == 'TableGetGlobals':
+        return infer_table(a[0])['glob']
+    if k in ('ApplyAggOp', 'ApplyScanOp'):
+        # (ApplyAggOp op (init args) (seq args)): seq args live in the aggregation scope
+        if aenv is None:
+            raise IllTyped(f'{k} outside an aggregation scope')
+        if len(a) != 3 or not isinstance(a[1], list) or not isinstance(a[2], list):
+            raise NotInferred(f'{k} layout')
+        for x in a[1]:
+            infer(x, env, aenv)
+        seq = [infer(x, aenv, None) for x in a[2]]
+        if a[0] == 'Collect' and len(seq) == 1:
+            return ('Array', seq[0])
+        if a[0] == 'Count' and not seq:
+            return 'Int64'
+        if a[0] == 'Sum' and len(seq) == 1 and seq[0] in ('Int64', 'Float64'):
+            return seq[0]
+        raise NotInferred(f'{k} {a[0]}')
     if k in ('Apply', 'ApplySpecial'):
         # (Apply errorID name (typeArgs) returnType args...): the declared return type is what the engine uses
         for x in a[4:]:
@@ -424,10 +443,233 @@ def infer_table(t):
         if p != 'Boolean':
             raise IllTyped('TableFilter predicate')
         return c
+    if k in ('TableHead', 'TableTail'):
+        return infer_table(a[1])
+    if k == 'TableDistinct':
+        return infer_table(a[0])
+    if k == 'TableUnion':
+        cs = [infer_table(x) for x in a]
+        if any(c['row'] != cs[0]['row'] or c['key'] != cs[0]['key'] for c in cs):
+            raise IllTyped('TableUnion of different row types / keys')
+        return cs[0]
+    if k == 'TableLeftJoinRightDistinct':
+        rule = _join_rules()['TableLeftJoinRightDistinct']
+        root = irsem.unescape_id(a[0])
+        l, r = infer_table(a[1]), infer_table(a[2])
+        _check_join_keys(l, r, k)
+        return {'row': _insert(l['row'], root, _value_type(r), rule['mode']), 'glob': l['glob'], 'key': l['key']}
+    if k == 'TableIntervalJoin':
+        rule = _join_rules()['TableIntervalJoin']
+        root, product = irsem.unescape_id(a[0]), irsem._bool_lit(a[1])
+        l, r = infer_table(a[2]), infer_table(a[3])
+        rk = [dict(r['row'][1])[x] for x in r['key']]
+        lk = [dict(l['row'][1])[x] for x in l['key']]
+        if not rk or not lk or not (isinstance(rk[0], tuple) and rk[0][0] == 'Interval' and rk[0][1] == lk[0]):
+            raise IllTyped(f'TableIntervalJoin: left key {[show(x) for x in lk]} vs right key {[show(x) for x in rk]}')
+        vt = _value_type(r)
+        if product and rule['product_array']:
+            vt = ('Array', vt)
+        return {'row': _insert(l['row'], root, vt, rule['mode']), 'glob': l['glob'], 'key': l['key']}
+    if k == 'TableAggregateByKey':
+        c = infer_table(a[0])
+        e = infer(a[1], {'global': c['glob']}, {'global': c['glob'], 'row': c['row']})
+        kt = [(n, dict(c['row'][1])[n]) for n in c['key']]
+        return {'row': ('Struct', tuple(kt + fields(e, k))), 'glob': c['glob'], 'key': c['key']}
+    if k == 'TableKeyByAndAggregate':
+        # (TableKeyByAndAggregate nPartitions bufferSize child expr newKey)
+        c = infer_table(a[2])
+        scope = {'global': c['glob'], 'row': c['row']}
+        e = infer(a[3], {'global': c['glob']}, scope)
+        nk = infer(a[4], scope)
+        return {'row': ('Struct', tuple(fields(nk, k) + fields(e, k))), 'glob': c['glob'], 'key': [n for n, _ in fields(nk, k)]}
+    if k == 'TableJoin':
+        # (TableJoin type joinKey left right): left key ++ left value ++ right value; key = left key ++ rest of right key
+        jk = int(a[1])
+        l, r = infer_table(a[2]), infer_table(a[3])
+        lrow, rrow = dict(l['row'][1]), dict(r['row'][1])
+        if [lrow[x] for x in l['key'][:jk]] != [rrow[x] for x in r['key'][:jk]]:
+            raise IllTyped('TableJoin: join key types differ')
+        lval = [(n, t_) for n, t_ in l['row'][1] if n not in l['key']]
+        rval = [(n, t_) for n, t_ in r['row'][1] if n not in r['key'][:jk]]
+        if set(n for n, _ in l['row'][1]) & set(n for n, _ in rval):
+            raise IllTyped('TableJoin: field name clash')
+        row = [(n, lrow[n]) for n in l['key']] + lval + rval
+        return {'row': ('Struct', tuple(row)), 'glob': ('Struct', tuple(fields(l['glob'], k) + fields(r['glob'], k))),
+                'key': l['key'] + r['key'][jk:]}
+    if k == 'MatrixRowsTable':
+        m = infer_matrix(a[0])
+        return {'row': m['row'], 'glob': m['glob'], 'key': m['rkey']}
+    if k == 'MatrixColsTable':
+        m = infer_matrix(a[0])
+        return {'row': m['col'], 'glob': m['glob'], 'key': m['ckey']}
+    if k == 'MatrixEntriesTable':
+        m = infer_matrix(a[0])
+        names = [n for n, _ in m['row'][1]] + [n for n, _ in m['col'][1]] + [n for n, _ in m['entry'][1]]
+        if len(set(names)) != len(names):
+            raise IllTyped('MatrixEntriesTable: field name clash')
+        return {'row': ('Struct', tuple(m['row'][1] + m['col'][1] + m['entry'][1])), 'glob': m['glob'],
+                'key': m['rkey'] + m['ckey']}
     raise NotInferred(k)
 
 
-STATS = {'expr_inferred': 0, 'expr_not_inferred': 0, 'table_inferred': 0, 'table_not_inferred': 0, 'not_inferred_nodes': {}}
+def _value_type(tt):
+    return ('Struct', tuple((n, t_) for n, t_ in tt['row'][1] if n not in tt['key']))
+
+
+def _insert(struct, name, typ, mode):
+    """structInsert (replace or append) / appendKey (must be new)"""
+    fs = list(struct[1])
+    if name in dict(fs):
+        if mode == 'appendKey':
+            raise IllTyped(f'join root {name} already is a field')
+        return ('Struct', tuple((n, typ if n == name else t_) for n, t_ in fs))
+    return ('Struct', tuple(fs + [(name, typ)]))
+
+
+def _check_join_keys(l, r, what):
+    lk = [dict(l['row'][1])[x] for x in l['key']]
+    rk = [dict(r['row'][1])[x] for x in r['key']]
+    if len(rk) > len(lk) or lk[:len(rk)] != rk:
+        raise IllTyped(f'{what}: right key {[show(x) for x in rk]} is not a prefix of left key {[show(x) for x in lk]}')
+
+
+TABLE_SRC = 'hail/hail/src/is/hail/expr/ir/TableIR.scala'
+MATRIX_SRC = 'hail/hail/src/is/hail/expr/ir/MatrixIR.scala'
+_JOIN = {}
+
+
+def _join_rules():
+    """How the engine types the join nodes, read from the `typ` definitions in TableIR.scala / MatrixIR.scala."""
+    if _JOIN:
+        return _JOIN
+    ttxt, mtxt = loader.read(TABLE_SRC), loader.read(MATRIX_SRC)
+
+    def block(txt, cls):
+        m = re.search(r'case class %s\((.*?)\n}\n' % cls, txt, re.S)
+        if not m:
+            raise HarnessError(f'{cls}: case class not found in the Scala sources')
+        return re.sub(r'\s+', ' ', m.group(1))
+    b = block(ttxt, 'TableLeftJoinRightDistinct')
+    m = re.search(r'rowType = left\.typ\.rowType\.(structInsert|appendKey)\((.*?)\)', b)
+    if not m or 'right.typ.valueType' not in m.group(2) or 'TArray' in m.group(2):
+        raise HarnessError('TableLeftJoinRightDistinct.typ no longer inserts right.typ.valueType at root')
+    _JOIN['TableLeftJoinRightDistinct'] = {'mode': m.group(1)}
+    b = block(ttxt, 'TableIntervalJoin')
+    pm = re.search(r'if \(product\) (TArray\()?right\.typ\.valueType\)? else (TArray\()?right\.typ\.valueType', b)
+    m = re.search(r'left\.typ\.rowType\.(structInsert|appendKey)\(root, rightType\)', b)
+    if not pm or not m or pm.group(2):
+        raise HarnessError('TableIntervalJoin.typ: unexpected definition')
+    _JOIN['TableIntervalJoin'] = {'mode': m.group(1), 'product_array': bool(pm.group(1))}
+    b = block(mtxt, 'MatrixAnnotateRowsTable')
+    pm = re.search(r'if \(product\) (TArray\()?table\.typ\.valueType\)? else (TArray\()?table\.typ\.valueType', b)
+    m = re.search(r'child\.typ\.rowType\.(structInsert|appendKey)\(root, annotationType\)', b)
+    if not pm or not m or pm.group(2):
+        raise HarnessError('MatrixAnnotateRowsTable.typ: unexpected definition')
+    _JOIN['MatrixAnnotateRowsTable'] = {'mode': m.group(1), 'product_array': bool(pm.group(1))}
+    b = block(mtxt, 'MatrixAnnotateColsTable')
+    m = re.search(r'colType = child\.typ\.colType\.(structInsert|appendKey)\((.*?)\)', b)
+    if not m or 'table.typ.valueType' not in m.group(2):
+        raise HarnessError('MatrixAnnotateColsTable.typ: unexpected definition')
+    _JOIN['MatrixAnnotateColsTable'] = {'mode': m.group(1)}
+    _JOIN['src'] = (ttxt, mtxt)
+    return _JOIN
+
+
+# ---- matrix IR ------------------------------------------------------------------------------------------
+def infer_matrix(t):
+    """-> dict(row, col, entry, glob: Struct; rkey, ckey: [names])"""
+    import json as _json
+    k, a = t[0], t[1:]
+    if k == 'MatrixRead':
+        try:
+            rd = _json.loads(_json.loads(a[-1]))
+        except Exception:
+            raise NotInferred('MatrixRead reader')
+        if rd.get('name') != 'MatrixRangeReader' or a[0] != 'DropRowColUIDs':
+            raise NotInferred('MatrixRead reader')
+        return {'row': ('Struct', (('row_idx', 'Int32'),)), 'col': ('Struct', (('col_idx', 'Int32'),)),
+                'entry': ('Struct', ()), 'glob': ('Struct', ()), 'rkey': ['row_idx'], 'ckey': ['col_idx']}
+    if k == 'MatrixMapRows':
+        c = infer_matrix(a[0])
+        scope = {'global': c['glob'], 'va': c['row']}
+        r = infer(a[1], scope, {'global': c['glob'], 'va': c['row'], 'sa': c['col'], 'g': c['entry']})
+        fs = dict(fields(r, k))
+        if any(x not in fs or fs[x] != dict(c['row'][1])[x] for x in c['rkey']):
+            raise IllTyped('MatrixMapRows changes a row key field')
+        return dict(c, row=r)
+    if k == 'MatrixMapCols':
+        c = infer_matrix(a[1])
+        scope = {'global': c['glob'], 'sa': c['col']}
+        r = infer(a[2], scope, scope if _has_scan(a[2]) else {'global': c['glob'], 'va': c['row'], 'sa': c['col'], 'g': c['entry']})
+        ck = c['ckey'] if a[0] == 'None' else [_json.loads(x) if x.startswith('"') else irsem.unescape_id(x) for x in a[0]]
+        if any(x not in dict(fields(r, k)) for x in ck):
+            raise IllTyped('MatrixMapCols: unknown col key field')
+        return dict(c, col=r, ckey=ck)
+    if k == 'MatrixMapEntries':
+        c = infer_matrix(a[0])
+        r = infer(a[1], {'global': c['glob'], 'va': c['row'], 'sa': c['col'], 'g': c['entry']})
+        fields(r, k)
+        return dict(c, entry=r)
+    if k == 'MatrixMapGlobals':
+        c = infer_matrix(a[0])
+        r = infer(a[1], {'global': c['glob']})
+        fields(r, k)
+        return dict(c, glob=r)
+    if k in ('MatrixFilterRows', 'MatrixFilterCols', 'MatrixFilterEntries'):
+        c = infer_matrix(a[0])
+        scope = {'global': c['glob']}
+        if k != 'MatrixFilterCols':
+            scope['va'] = c['row']
+        if k != 'MatrixFilterRows':
+            scope['sa'] = c['col']
+        if k == 'MatrixFilterEntries':
+            scope['g'] = c['entry']
+        if infer(a[1], scope) != 'Boolean':
+            raise IllTyped(f'{k} predicate')
+        return c
+    if k == 'MatrixKeyRowsBy':
+        c = infer_matrix(a[2])
+        ks = names_list(a[0])
+        if any(x not in dict(c['row'][1]) for x in ks):
+            raise IllTyped('MatrixKeyRowsBy: unknown key field')
+        return dict(c, rkey=ks)
+    if k == 'MatrixAnnotateRowsTable':
+        rule = _join_rules()[k]
+        root, product = _json.loads(a[0]), irsem._bool_lit(a[1])
+        c, tb = infer_matrix(a[2]), infer_table(a[3])
+        lk = [dict(c['row'][1])[x] for x in c['rkey']]
+        rk = [dict(tb['row'][1])[x] for x in tb['key']]
+        # TypeCheck.scala: (!product && table key isPrefixOf row key) || (one interval key over the first row key type)
+        interval = len(rk) == 1 and bool(lk) and isinstance(rk[0], tuple) and rk[0][0] == 'Interval' and rk[0][1] == lk[0]
+        if not interval and (product or len(rk) > len(lk) or lk[:len(rk)] != rk):
+            raise IllTyped(f'{k}: table key {[show(x) for x in rk]} does not match row key {[show(x) for x in lk]}')
+        vt = _value_type(tb)
+        if product and rule['product_array']:
+            vt = ('Array', vt)
+        return dict(c, row=_insert(c['row'], root, vt, rule['mode']))
+    if k == 'MatrixAnnotateColsTable':
+        rule = _join_rules()[k]
+        root = _json.loads(a[0])
+        c, tb = infer_matrix(a[1]), infer_table(a[2])
+        # TypeCheck.scala asserts only that root is not yet a column field (no key compatibility is checked by the
+        # engine's type checker; an incompatible key fails later, in lowering)
+        if root in dict(c['col'][1]):
+            raise IllTyped(f'{k}: root {root} already is a column field')
+        return dict(c, col=_insert(c['col'], root, _value_type(tb), rule['mode']))
+    raise NotInferred(k)
+
+
+def _has_scan(t):
+    if isinstance(t, list):
+        return (bool(t) and t[0] == 'ApplyScanOp') or any(_has_scan(x) for x in t)
+    return False
+
+
+STATS = {'expr_inferred': 0, 'expr_not_inferred': 0, 'table_inferred': 0, 'table_not_inferred': 0, 'matrix_inferred': 0,
+         'matrix_not_inferred': 0, 'join_nodes_inferred': 0, 'not_inferred_nodes': {}}
+
+
+_JOIN_RE = re.compile(r'\((?:TableLeftJoinRightDistinct|TableIntervalJoin|MatrixAnnotateRowsTable|MatrixAnnotateColsTable|TableJoin) ')
 
 
 def text_check(obj, env):
@@ -445,6 +687,7 @@ def text_check(obj, env):
         except IllTyped as e:
             raise Violation('ir-text-ill-typed', f'{e}: {text[:600]}')
         STATS['table_inferred'] += 1
+        STATS['join_nodes_inferred'] += len(_JOIN_RE.findall(text))
         front = (of_hail(obj.row.dtype), of_hail(obj.globals.dtype), list(obj.key))
         if front != (tt['row'], tt['glob'], tt['key']):
             raise Violation('table-type-vs-ir-text', f'front end row={show(front[0])} globals={show(front[1])} key={front[2]} '
@@ -452,6 +695,24 @@ def text_check(obj, env):
                             f'{text[:600]}')
         return
     if isinstance(obj, hl.MatrixTable):
+        text = str(obj._mir)
+        try:
+            mt = infer_matrix(irsem.read(text))
+        except NotInferred as n:
+            STATS['matrix_not_inferred'] += 1
+            STATS['not_inferred_nodes'][str(n)] = STATS['not_inferred_nodes'].get(str(n), 0) + 1
+            return
+        except IllTyped as e:
+            raise Violation('ir-text-ill-typed', f'{e}: {text[:900]}')
+        STATS['matrix_inferred'] += 1
+        STATS['join_nodes_inferred'] += len(_JOIN_RE.findall(text))
+        front = {'row': of_hail(obj.row.dtype), 'col': of_hail(obj.col.dtype), 'entry': of_hail(obj.entry.dtype),
+                 'glob': of_hail(obj.globals.dtype), 'rkey': list(obj.row_key), 'ckey': list(obj.col_key)}
+        for what in front:
+            if front[what] != mt[what]:
+                sh = (lambda x: x if isinstance(x, list) else show(x))
+                raise Violation('matrix-type-vs-ir-text', f'{what}: front end {sh(front[what])} but the IR text implies '
+                                f'{sh(mt[what])}: {text[:900]}')
         return
     text = str(obj._ir)
     try:
